@@ -3,6 +3,7 @@ import itertools
 import math
 from fractions import Fraction
 from lib.core import *
+from gen import c15_dimchecks
 
 ID = "C15"
 PROPS_FILES = ["Gama/Props/C15.lean"]
@@ -10,27 +11,35 @@ LEAN_TARGETS = ["Gama.Props.C15"]
 DRIVERS = ["drv_matvec"]
 RULE = ("object scripts: random histories of ctor/copy/move/assign/move-assign/resize(reset)/write/fill/transpose/dtor "
         "on 8 slots of MemRep, Vec, Mat, SymMat with sizes 0..4 (plus every ordered size pair for b=a then write); "
-        "algebra: every operator on all dimension pairs 0..N (N=3 quick, 4 thorough) and exhaustively on all operands "
+        "algebra: every operator on all dimension pairs 0..N (N=3 quick, 4 thorough), on shape pairs with equal element "
+        "count but different shape (2x3/3x2, 1x4/2x2, 0x3/2x0, ...) for every member and non-member variant, and exhaustively on all operands "
         "with entries in {-1,0,1,2} for the tiny shapes, random small-integer / dyadic operands beyond; "
         "non-trivial = script with at least one copy or assignment between objects of different sizes, or an algebra "
         "line whose operands are non-empty; distinct by the text of the script / line")
 LEVEL_TEXT = ("Lean 4 theorems for all sizes and all operation histories: the heap model of MemRep refines independent "
               "values and keeps an ownership invariant; index maps of Mat/SymMat are bijections; sums, both product "
-              "implementations and transposes equal the entrywise definitions; guards throw BadRank iff operands do "
-              "not conform; Mat::invert's swap loops apply the inverse permutation; SymMat::cholDec/solve reproduce "
-              "and solve. Models tied to lib/matvec by differential correspondence (exact rational and IEEE double "
+              "implementations and transposes equal the entrywise definitions; the BadRank guard of every operator "
+              "(table regenerated from the headers on each run) implies conformity in shape; Mat::invert (Gauss-Jordan "
+              "with full pivoting and the permutation undo) returns a two-sided inverse whenever it does not throw; "
+              "SymMat::cholDec/solve reproduce and solve; pinv satisfies the four Moore-Penrose conditions given an SVD "
+              "certificate that is evaluated per run for tall, square, wide and rank-deficient matrices. "
+              "Models tied to lib/matvec by a translator (guards) and differential correspondence (exact rational and IEEE double "
               "instances of the same definitions) and an always-on property oracle on the C++ answers.")
 LEVEL_NOTE = ("Trusted: Lean kernel, statements in Props/C15.lean, harness/generator/comparator. The operators whose faithful "
               "model violates the property (TransMat±TransMat, TransMat*TransMat non-square, TransVec*MatBase, Vec*TransMat, "
               "SymMat*SymMat, memcpy(nullptr,..,0) on empty copies) are proved to violate it on a witness and reported as "
-              "findings. SVD convergence/accuracy and pinv are certificate checks on the implementation (explored, not proved).")
-TECHNIQUE = "Lean 4 proof (refinement + invariant by induction over operation histories; entrywise algebra) + correspondence"
+              "findings. SVD::svd itself (Golub-Reinsch iteration) is not modelled: its output enters pinv_moore_penrose as a "
+              "certificate (A = U W V^T, V^T V = 1, U^T U = 1 on kept columns, dropped singular values negligible) checked "
+              "numerically on every run.")
+TECHNIQUE = ("Lean 4 proof (refinement + invariant by induction over operation histories; entrywise algebra; loop invariants of "
+             "Gauss-Jordan, Cholesky and the symmetric exchange inversion; Moore-Penrose from an SVD certificate) + translator "
+             "(dimension guards regenerated from the headers) + correspondence")
 TRUSTED = ["harness/c15_matvec.cpp: counting replacements of operator new[]/delete[] and a null-counting memcpy wrapper "
            "(observation only; the wrapper does not forward a null pointer)"]
 MODELLED = ["IEEE rounding (theorems over ordered fields; Float instance compared with tolerance)",
             "indeterminate content of new Float[n] (model: a fixed placeholder; never observed before written)",
-            "SVD::svd (Golub-Reinsch iteration): per-run certificate only; pinv: formula modelled from (U,W,V,tol), "
-            "Moore-Penrose conditions checked numerically",
+            "SVD::svd (Golub-Reinsch iteration): per-run certificate only (all shapes incl. wide); pinv: formula modelled "
+            "from (U,W,V,W_tol), run next to the C++ on the C++'s own decomposition; Moore-Penrose proved from the certificate",
             "std::sort (sortvec.h), iostream operators, GSO (gso.h, exercised through C01/C02)",
             "negative dimensions passed to resize/reset/constructors other than MemRep(n<0)"]
 ASSUMPTIONS = ["element access operator()(r,c) with indices out of range is outside the property (unchecked by design)"]
@@ -44,6 +53,48 @@ KNOWN = {
     "C15-symmat-product": "SymMat * SymMat returns only the lower triangle of AB as a symmetric matrix",
     "C15-symmat-empty-null-offset": "SymMat::cholDec/invert, SymMat*SymMat, Mat*SymMat form `begin() - 1` on a null pointer when the dimension is 0 (UB)",
 }
+
+# ----------------------------------------------------------------------------- translator (guards)
+
+def translate(ctx):
+    try:
+        if c15_dimchecks.run(ctx.repo, ctx.lean / "Gama" / "Gen" / "DimChecks.lean"):
+            ctx.log("Gen/DimChecks.lean regenerated (content changed)")
+    except c15_dimchecks.Unparsable as e:
+        raise TieBroken("tools/gen/c15_dimchecks.py", str(e))
+    except OSError as e:
+        raise TieBroken("tools/gen/c15_dimchecks.py", "cannot read source: " + str(e))
+
+
+# name of the generated table entry for every (operation, operand kinds) of the algebra stream
+GUARD_OF = {
+    ("add", "MM"): "Mat::operator+(Mat)", ("sub", "MM"): "Mat::operator-(Mat)",
+    ("addg", "MM"): "operator+(MatBase,MatBase)", ("subg", "MM"): "operator-(MatBase,MatBase)",
+    ("add", "VV"): "Vec::operator+(Vec)", ("sub", "VV"): "Vec::operator-(Vec)",
+    ("addeq", "VV"): "Vec::operator+=(Vec)", ("subeq", "VV"): "Vec::operator-=(Vec)",
+    ("add", "WW"): "TransVec::operator+(TransVec)", ("sub", "WW"): "TransVec::operator-(TransVec)",
+    ("add", "SS"): "SymMat::operator+(SymMat)", ("sub", "SS"): "SymMat::operator-(SymMat)",
+    ("addf", "SS"): "operator+(SymMat,SymMat)", ("subf", "SS"): "operator-(SymMat,SymMat)",
+    ("addeq", "SS"): "operator+=(SymMat,SymMat)", ("subeq", "SS"): "operator-=(SymMat,SymMat)",
+    ("add", "MT"): "operator+(Mat,TransMat)", ("sub", "MT"): "operator-(Mat,TransMat)",
+    ("add", "TM"): "operator+(TransMat,Mat)", ("sub", "TM"): "operator-(TransMat,Mat)",
+    ("add", "TT"): "TransMat::operator+(TransMat)", ("sub", "TT"): "TransMat::operator-(TransMat)",
+    ("mul", "MM"): "operator*(Mat,Mat)", ("mulg", "MM"): "operator*(MatBase,MatBase)",
+    ("mul", "MV"): "operator*(Mat,Vec)", ("mulg", "MV"): "operator*(MatBase,Vec)",
+    ("mul", "TM"): "operator*(TransMat,Mat)", ("mul", "MT"): "operator*(Mat,TransMat)",
+    ("mul", "TT"): "operator*(TransMat,TransMat)", ("mul", "TV"): "operator*(TransMat,Vec)",
+    ("mul", "MS"): "operator*(Mat,SymMat)", ("mul", "SS"): "operator*(SymMat,SymMat)",
+    ("mul", "WM"): "operator*(TransVec,Mat)", ("mulg", "WM"): "operator*(TransVec,MatBase)",
+    ("mulg", "WT"): "operator*(TransVec,MatBase)", ("mulg", "WS"): "operator*(TransVec,MatBase)",
+    ("mul", "VT"): "operator*(Vec,TransMat)", ("mul", "WV"): "operator*(TransVec,Vec)",
+    ("dot", "VV"): "VecBase::dot(VecBase)",
+}
+
+# shape pairs with the same element count but a different shape (the case `MatVecBase::add`, which
+# compares size() only, cannot tell apart), as (rows, cols) of the two operands *as the operator sees them*
+EQCOUNT = [((2, 3), (3, 2)), ((1, 4), (2, 2)), ((0, 3), (2, 0)), ((4, 1), (2, 2)), ((1, 6), (2, 3)), ((6, 1), (3, 2)),
+           ((2, 2), (4, 1)), ((3, 4), (4, 3)), ((3, 4), (2, 6)), ((1, 2), (2, 1)), ((0, 0), (0, 2)), ((0, 1), (3, 0)),
+           ((1, 1), (1, 1)), ((2, 3), (2, 3))]
 
 # ----------------------------------------------------------------------------- helpers
 
@@ -365,6 +416,7 @@ def r_vecT(o):          # Vec * TransMat: only the no-overrun clause is checked
 BINOPS = [
     ("add", "MM", r_sum(1)), ("sub", "MM", r_sum(-1)), ("addg", "MM", r_sum(1)), ("subg", "MM", r_sum(-1)),
     ("add", "VV", r_sum(1)), ("sub", "VV", r_sum(-1)), ("addeq", "VV", r_sum(1)), ("subeq", "VV", r_sum(-1)),
+    ("add", "WW", r_sum(1)), ("sub", "WW", r_sum(-1)),
     ("add", "SS", r_sum(1)), ("sub", "SS", r_sum(-1)), ("addf", "SS", r_sum(1)), ("subf", "SS", r_sum(-1)),
     ("addeq", "SS", r_sum(1)), ("subeq", "SS", r_sum(-1)),
     ("add", "MT", r_sum(1)), ("sub", "MT", r_sum(-1)), ("add", "TM", r_sum(1)), ("sub", "TM", r_sum(-1)),
@@ -595,6 +647,22 @@ def correspond(ctx, corr):
             k = Opnd("K", 0, 0, [rng.choice([-2, -1, 0, 1, 3, 0.5])])
             alg.append((name, sig, [a, k] if sig[1] == "K" else [k, a]))
 
+    # 2b. equal element count, different shape: every binary operator on matrix operands, member and
+    #     non-member, both orders; the operand is built so that the *view* has the listed shape
+    def mk_view(kind, shp):
+        r, c = shp
+        return mk(rng, kind, c, r) if kind == "T" else mk(rng, kind, r, c)
+    n_eq = 0
+    for name, sig, _ in BINOPS:
+        if sig[0] not in "MT" or sig[1] not in "MT":
+            continue
+        for (s1, s2) in EQCOUNT:
+            for (u, v) in ((s1, s2), (s2, s1)):
+                for _ in range(ctx.size(2, 6)):
+                    alg.append((name, sig, [mk_view(sig[0], u), mk_view(sig[1], v)]))
+                    n_eq += 1
+    corr.count("equal_count_different_shape_lines", n_eq)
+
     # 3. exhaustive tiny operands over {-1,0,1,2} --------------------------------
     vals = (-1, 0, 1, 2)
     tiny = [("mul", "MM", (1, 1), (1, 1)), ("mul", "MM", (1, 2), (2, 1)), ("mul", "MM", (2, 1), (1, 2)),
@@ -715,6 +783,13 @@ def correspond(ctx, corr):
                 A[k][j] = A[j][k] = 0
         numeric.append((f"op chol S {n} " + hs(packed(A)) + f" K {H(1e-8)}", "chol-any", A))
         numeric.append((f"op sinv S {n} " + hs(packed(A)), "sinv-any", A))
+    # exactly positive SEMI-definite inputs B B^T of rank < n (theorem symchol_psd: L L^T = A for any nullity)
+    for _ in range(ctx.size(120, 2000)):
+        n = rng.randint(2, 5)
+        q = rng.randint(1, n - 1)
+        B = [[rng.randint(-2, 2) for _ in range(q)] for _ in range(n)]
+        A = [[sum(B[i][k] * B[j][k] for k in range(q)) for j in range(n)] for i in range(n)]
+        numeric.append((f"op chol S {n} " + hs(packed(A)) + f" K {H(1e-8)}", "chol-psd", (A, B)))
     for i in range(0, len(numeric), 200):
         part = numeric[i:i + 200]
         cases.append(([p[0] for p in part], ("num", part)))
@@ -728,6 +803,46 @@ def correspond(ctx, corr):
     drv = ctx.driver("drv_matvec")
     mrat, _ = run_cases(drv, lines, args=("rat",))
     mflt, _ = run_cases(drv, lines, args=("float",))
+    ctx.log(f"phase 1: {sum(len(l) for l in lines)} lines through the harness and both model instances")
+
+    # ---- the generated guard table next to the implementation: for every algebra line of a guarded
+    #      operator, `throw BadRank` <=> the guard of Gen/DimChecks.lean fires on the operands' shapes
+    glines, gmeta = [], []
+    for ci, (ls, meta) in enumerate(cases):
+        if meta[0] != "alg" or ci in crashes:
+            continue
+        for li, (name, sig, ops) in enumerate(meta[1]):
+            gname = GUARD_OF.get((name, sig))
+            if gname is None or li >= len(impl[ci]):
+                continue
+            (r1, c1), (r2, c2) = shape(ops[0]), shape(ops[1])
+            glines.append(f"guard {gname} {r1} {c1} {r2} {c2}")
+            gmeta.append((ci, li, name, sig, gname))
+    gout, _ = run_cases(drv, [glines], args=("rat",))
+    ctx.log(f"guard table evaluated on {len(glines)} operand shape pairs")
+    n_fire = n_eqshape_fire = 0
+    for k, (ci, li, name, sig, gname) in enumerate(gmeta):
+        g = gout[0][k].split() if k < len(gout[0]) else []
+        threw = impl[ci][li] == "throw BadRank"
+        if len(g) != 6 or g[0] != "guard":
+            corr.disagree("guard-table", [glines[k]], [impl[ci][li]], [" ".join(g)])
+            continue
+        fires = g[1] == "1"
+        n_fire += fires
+        ops = cases[ci][1][1][li][2]
+        s1, s2 = shape(ops[0]), shape(ops[1])
+        if fires and s1 != s2 and s1[0] * s1[1] == s2[0] * s2[1] and sig[0] in "MT" and sig[1] in "MT" and name[:3] in ("add", "sub"):
+            n_eqshape_fire += 1
+        if fires != threw:
+            corr.disagree("guard-table", [cases[ci][0][li], glines[k]], [impl[ci][li]], [" ".join(g)])
+        if not fires and g[5] == "0" and (name, sig) not in DEFECT_OF:
+            corr.fail(f"the guard of {gname} lets non-conforming operands through", {"stream": "algebra", "ops": [cases[ci][0][li]]},
+                      f"{name}:{sig}", " ".join(g))
+    corr.count("guard_table_lines", len(gmeta))
+    corr.count("guard_table_fires", n_fire)
+    corr.count("guard_fires_on_equal_count_different_shape_sums", n_eqshape_fire)
+    if gmeta and n_eqshape_fire == 0:
+        corr.inconclusive.append("no sum/difference of equally large but differently shaped matrices was generated")
 
     solve_lines = []
     max_dev = 0.0
@@ -861,6 +976,37 @@ def correspond(ctx, corr):
                         if n:
                             rhs = [rng.randint(-5, 5) for _ in range(n)]
                             solve_lines.append((f"op solve S {n} {' '.join(t[3:3 + n * (n + 1) // 2])} V {n} {hs(rhs)}", A, rhs))
+                if nk == "chol-psd":
+                    A, B = A
+                    n = len(A)
+                    t = a.split()
+                    # exact rank of B (= rank of B B^T) by fraction elimination
+                    Mx = [[Fraction(v) for v in row] for row in B]
+                    rank, col = 0, 0
+                    while rank < len(Mx) and col < len(Mx[0]):
+                        pr = next((r for r in range(rank, len(Mx)) if Mx[r][col] != 0), None)
+                        if pr is None:
+                            col += 1
+                            continue
+                        Mx[rank], Mx[pr] = Mx[pr], Mx[rank]
+                        for r in range(rank + 1, len(Mx)):
+                            f = Mx[r][col] / Mx[rank][col]
+                            Mx[r] = [x - f * y for x, y in zip(Mx[r], Mx[rank])]
+                        rank += 1
+                        col += 1
+                    if not a.startswith("ok S"):
+                        corr.fail("SymMat::cholDec rejected an exactly positive semi-definite matrix", payload, "SymMat::cholDec", a)
+                    else:
+                        corr.count("chol_psd_nullity_" + t[-1])
+                        x = [hex2float(v) for v in t[3:3 + n * (n + 1) // 2]]
+                        L = [[x[i * (i + 1) // 2 + j] if j <= i else 0.0 for j in range(n)] for i in range(n)]
+                        dev = fmaxdiff(fmul(L, ftr(L)), [[float(v) for v in r] for r in A])
+                        max_dev = max(max_dev, dev)
+                        if dev > 1e-6 * (1 + max(abs(v) for r in A for v in r)):
+                            corr.fail("L*trans(L) differs from a positive semi-definite A", payload, "SymMat::cholDec", f"dev={dev}")
+                        if int(t[-1]) != n - rank:
+                            corr.fail("SymMat::cholDec reports a nullity different from n - rank(A)", payload, "SymMat::cholDec",
+                                      f"nullity={t[-1]} rank={rank} n={n}")
                 if nk == "sinv" and A is not None and len(A):
                     n = len(A)
                     got = parse_out(a)
@@ -876,39 +1022,54 @@ def correspond(ctx, corr):
             if crashed:
                 corr.fail("numeric stream aborted under the sanitizers", {"stream": "numeric", "ops": ls}, "numeric", crashes[ci][1])
 
-    # ---- phase 2: solve with the implementation's factors; SVD / pinv certificates
+    # ---- phase 2: solve with the implementation's factors; SVD certificate + pinv (model on the C++'s own U, W, V)
     svd_in = []
-    for _ in range(ctx.size(60, 1200)):
-        m, n = rng.randint(1, 6), rng.randint(1, 5)
-        if m < n:
-            m, n = n, m
+    shapes = [(m, n) for m in range(1, 7) for n in range(1, 6)]
+    n_svd = ctx.size(90, 1500)
+    for k in range(n_svd):
+        # every third case tall, square, wide in turn, so that each class is exercised on every run
+        want = ("tall", "square", "wide")[k % 3]
+        m, n = rng.choice([d for d in shapes if (d[0] > d[1], d[0] == d[1], d[0] < d[1])[("tall", "square", "wide").index(want)]])
         r = rng.random()
-        if r < 0.5:
+        if r < 0.45:
             A = cond_matrix(rng, m, n, 10 ** rng.uniform(0, 3))
             cls = "well"
-        elif r < 0.8:
+        elif r < 0.7:
             A = cond_matrix(rng, m, n, 10 ** rng.uniform(6, 11))
             cls = "ill"
-        else:                                   # exactly rank deficient small-integer matrix
-            B = [[rng.randint(-3, 3) for _ in range(max(n - 1, 1))] for _ in range(m)]
-            C = [[rng.randint(-2, 2) for _ in range(n)] for _ in range(max(n - 1, 1))]
+        else:                                   # exactly rank deficient small-integer matrix (rank < min(m, n) when min > 1)
+            q = max(min(m, n) - 1, 1)
+            B = [[rng.randint(-3, 3) for _ in range(q)] for _ in range(m)]
+            C = [[rng.randint(-2, 2) for _ in range(n)] for _ in range(q)]
             A = [[float(v) for v in row] for row in fmul(B, C)]
             cls = "deficient"
-        svd_in.append((m, n, A, cls))
+        svd_in.append((m, n, A, cls + "_" + want))
     p2 = [[f"op svd M {m} {n} {hs(v for r in A for v in r)}" for (m, n, A, _) in svd_in],
           [s[0] for s in solve_lines]]
+    ctx.log("phase 1 compared; phase 2 (solve, svd, pinv)")
     impl2, crashes2 = run_cases(exe, p2)
     if crashes2:
         corr.fail("svd / solve stream aborted under the sanitizers", {"stream": "svd", "ops": p2[min(crashes2)][:3]}, "SVD", str(crashes2)[:1500])
-    flt2, _ = run_cases(drv, [[], p2[1]], args=("float",))
-    rat2, _ = run_cases(drv, [[], p2[1]], args=("rat",))
+    ctx.log("svd/solve lines through the harness")
+    # the model's substitution loops keep the right-hand side as a function (every read replays the earlier
+    # updates): dimension 5 costs most of the time, so the quick tier runs the model up to dimension 4
+    in_model = [ctx.thorough or len(A) <= 4 for (_l, A, _r) in solve_lines]
+    msolve = [l for l, ok in zip(p2[1], in_model) if ok]
+    flt2, _ = run_cases(drv, [[], msolve], args=("float",))
+    rat2, _ = run_cases(drv, [[], msolve], args=("rat",))
+    ctx.log(f"{len(msolve)} of {len(p2[1])} solve lines through the model")
+    corr.count("solve_lines_through_the_model", len(msolve))
+    mi = -1
     for li, (line, A, rhs) in enumerate(solve_lines):
         corr.case(key=line)
+        if in_model[li]:
+            mi += 1
         if li >= len(impl2[1]):
             break
         a = impl2[1][li]
-        if not lines_equal(a, flt2[1][li], rtol=1e-9, atol=1e-9) or not lines_equal(a, rat2[1][li], rtol=1e-7, atol=1e-9):
-            corr.disagree("solve", [line], [a], [flt2[1][li], rat2[1][li]])
+        if in_model[li] and (mi >= len(flt2[1]) or mi >= len(rat2[1]) or not lines_equal(a, flt2[1][mi], rtol=1e-9, atol=1e-9)
+                             or not lines_equal(a, rat2[1][mi], rtol=1e-7, atol=1e-9)):
+            corr.disagree("solve", [line], [a], [flt2[1][mi] if mi < len(flt2[1]) else "", rat2[1][mi] if mi < len(rat2[1]) else ""])
         got = parse_out(a)
         if got is None:
             corr.fail("SymMat::solve gave no answer", {"stream": "numeric", "ops": [line]}, "SymMat::solve", a)
@@ -920,63 +1081,111 @@ def correspond(ctx, corr):
             corr.fail("SymMat::solve does not solve A x = b", {"stream": "numeric", "ops": [line]}, "SymMat::solve", f"residual={res}")
     corr.maxstat("max_numeric_oracle_deviation", max_dev)
 
-    # SVD certificate + pinv (explored, not proved)
-    pinv_lines, pinv_meta = [], []
-    cert_dev = {"recon": 0.0, "orthU": 0.0, "orthV": 0.0}
+    # SVD certificate (hypotheses of Props.C15.pinv_moore_penrose, evaluated on what the C++ SVD returned, every
+    # shape incl. wide) + pinv: the model `pinvFrom` on the C++'s own (U, W, V, W_tol) next to the C++ `pinv`
+    pinv_lines, pinvc_lines, pinv_meta = [], [], []
+    cert_dev = {"recon": 0.0, "orthU": 0.0, "orthV": 0.0, "dropped": 0.0}
     for li, (m, n, A, cls) in enumerate(svd_in):
         corr.case(key=p2[0][li])
         corr.count("svd_" + cls)
         if li >= len(impl2[0]):
             break
         t = impl2[0][li].split()
+        payload = {"stream": "svd", "ops": [p2[0][li]]}
         if t[:2] != ["ok", "U"]:
-            if cls != "ill":
-                corr.fail("SVD failed on a well-conditioned / small-integer matrix", {"stream": "svd", "ops": [p2[0][li]]}, "SVD::svd", impl2[0][li])
+            if not cls.startswith("ill"):
+                corr.fail("SVD failed on a well-conditioned / small-integer matrix", payload, "SVD::svd", impl2[0][li])
             continue
-        U = fmat(m, n, [hex2float(v) for v in t[4:4 + m * n]])
-        o = 4 + m * n
-        W = [hex2float(v) for v in t[o + 2:o + 2 + n]]
-        o = o + 2 + n
-        V = fmat(n, n, [hex2float(v) for v in t[o + 3:o + 3 + n * n]])
+        try:
+            assert (int(t[2]), int(t[3])) == (m, n)
+            U = fmat(m, n, [hex2float(v) for v in t[4:4 + m * n]])
+            o = 4 + m * n
+            assert t[o] == "W" and int(t[o + 1]) == n
+            W = [hex2float(v) for v in t[o + 2:o + 2 + n]]
+            o = o + 2 + n
+            assert t[o] == "V" and (int(t[o + 1]), int(t[o + 2])) == (n, n)
+            V = fmat(n, n, [hex2float(v) for v in t[o + 3:o + 3 + n * n]])
+            o = o + 3 + n * n
+            assert t[o] == "K" and len(t) == o + 2
+            wtol = hex2float(t[o + 1])
+        except (AssertionError, IndexError, ValueError):
+            corr.fail("SVD returned factors of the wrong shape", payload, "SVD::svd", impl2[0][li][:300])
+            continue
+        if any(math.isnan(v) or math.isinf(v) for v in W + [x for r in U for x in r] + [x for r in V for x in r]):
+            corr.fail("SVD returned non-finite factors", payload, "SVD::svd", f"class={cls}")
+            continue
         scale = max(abs(v) for r in A for v in r) or 1.0
         UW = [[U[i][k] * W[k] for k in range(n)] for i in range(m)]
         recon = fmaxdiff(fmul(UW, ftr(V)), A) / scale
-        nz = [k for k in range(n) if abs(W[k]) > 1e-12 * max(abs(w) for w in W)] if any(W) else []
+        vmax = max([0.0] + W)                                   # set_inv_W: signed maximum starting from 0
+        kept = [k for k in range(n) if abs(W[k]) > wtol * vmax]
+        dropped = max([abs(W[k]) / vmax for k in range(n) if k not in kept and vmax > 0] or [0.0])
         UtU = fmul(ftr(U), U)
-        orthU = max([abs(UtU[i][j] - float(i == j)) for i in nz for j in nz] or [0.0])
+        orthU = max([abs(UtU[i][j] - float(i == j)) for i in kept for j in kept] or [0.0])
         VtV = fmul(ftr(V), V)
         orthV = fmaxdiff(VtV, [[float(i == j) for j in range(n)] for i in range(n)])
-        cert_dev = {"recon": max(cert_dev["recon"], recon), "orthU": max(cert_dev["orthU"], orthU), "orthV": max(cert_dev["orthV"], orthV)}
-        if recon > 1e-10 or orthU > 1e-10 or orthV > 1e-10:
-            corr.fail("SVD certificate fails (A != U W V^T or factors not orthonormal)", {"stream": "svd", "ops": [p2[0][li]]},
-                      "SVD::svd", f"recon={recon} orthU={orthU} orthV={orthV} class={cls}")
-        tolW = 1000 * 2.0 ** -53 * 1.0   # the bisection in set_inv_W ends within 10% of eps/2: compared through lindep below
-        pinv_lines.append(f"op pinv M {m} {n} {hs(v for r in A for v in r)}")
+        for kk, vv in (("recon", recon), ("orthU", orthU), ("orthV", orthV), ("dropped", dropped)):
+            cert_dev[kk] = max(cert_dev[kk], vv)
+        corr.count("svd_kept_rank_" + ("full" if len(kept) == min(m, n) else "deficient"))
+        if len(kept) > min(m, n):
+            corr.fail("SVD keeps more singular values than min(rows, cols)", payload, "SVD::svd",
+                      f"kept={len(kept)} shape={m}x{n} W={W} class={cls}")
+        elif recon > 1e-10 or orthU > 1e-10 or orthV > 1e-10 or dropped > 1e-12:
+            corr.fail("SVD certificate fails (A != U W V^T, factors not orthonormal, or a dropped singular value is not negligible)",
+                      payload, "SVD::svd", f"recon={recon} orthU={orthU} orthV={orthV} dropped={dropped} shape={m}x{n} class={cls}")
+        flatA = hs(v for r in A for v in r)
+        pinv_lines.append(f"op pinv M {m} {n} {flatA}")
+        pinvc_lines.append(f"op pinvc M {m} {n} {flatA} M {m} {n} {hs(v for r in U for v in r)} V {n} {hs(W)} "
+                           f"M {n} {n} {hs(v for r in V for v in r)} K {H(wtol)}")
         pinv_meta.append((m, n, A, cls, U, W, V))
+    ctx.log("SVD certificates evaluated")
     impl3, crashes3 = run_cases(exe, [pinv_lines])
+    if crashes3:
+        corr.fail("pinv stream aborted under the sanitizers", {"stream": "svd", "ops": pinv_lines[:3]}, "pinv", str(crashes3)[:1500])
+    mod3f, _ = run_cases(drv, [pinvc_lines], args=("float",))
+    ctx.log("pinv: Float model done")
+    # exact rational evaluation of the same formula: doubles are dyadic rationals, the sums of triple products grow
+    # quickly, so the exact instance runs on the small shapes only (quick tier)
+    rat_ok = [ctx.thorough or (m * n <= 30) for (m, n, *_r) in pinv_meta]
+    rat_out, _ = run_cases(drv, [[l for l, ok in zip(pinvc_lines, rat_ok) if ok]], args=("rat",))
+    it = iter(rat_out[0])
+    mod3r = [[next(it, "") if ok else None for ok in rat_ok]]
+    corr.count("pinv_exact_rational_instances", sum(rat_ok))
+    ctx.log(f"pinv: {len(pinvc_lines)} decompositions through the model (Float, Rat)")
     for li, (m, n, A, cls, U, W, V) in enumerate(pinv_meta):
         if li >= len(impl3[0]):
             break
-        got = parse_out(impl3[0][li])
+        corr.case(key=pinv_lines[li])
+        a = impl3[0][li]
+        got = parse_out(a)
         if got is None:
+            corr.fail("pinv gave no answer", {"stream": "svd", "ops": [pinv_lines[li]]}, "pinv", a[:300])
             continue
         P = fmat(n, m, [float(v) for v in got[3]])
-        sc = max(abs(v) for r in A for v in r) or 1.0
         ps = max([abs(v) for r in P for v in r] or [1.0]) or 1.0
+        # correspondence: the model of pinv.h on the same decomposition (same summation order: Float nearly exact)
+        bf = mod3f[0][li] if li < len(mod3f[0]) else ""
+        br = mod3r[0][li] if li < len(mod3r[0]) else ""
+        if not lines_equal(a, bf, rtol=1e-12, atol=1e-12 * ps) or (br is not None and not lines_equal(a, br, rtol=1e-9, atol=1e-9 * ps)):
+            corr.disagree("pinv", [pinv_lines[li], pinvc_lines[li][:400]], [a], [bf, br])
+        sc = max(abs(v) for r in A for v in r) or 1.0
         AP, PA = fmul(A, P), fmul(P, A)
         c1 = fmaxdiff(fmul(AP, A), A) / sc
         c2 = fmaxdiff(fmul(PA, P), P) / ps
         c3 = fmaxdiff(AP, ftr(AP))
         c4 = fmaxdiff(PA, ftr(PA))
         worst = max(c1, c2, c3, c4)
-        corr.maxstat("pinv_moore_penrose_max_dev_" + cls, worst)
+        corr.maxstat("pinv_moore_penrose_max_dev_" + cls.split("_")[0], worst)
         # gap between kept and dropped singular values decides how sharp the conditions can be
-        lim = 1e-8 if cls != "ill" else 1e-3
+        lim = 1e-8 if not cls.startswith("ill") else 1e-3
         if worst > lim:
             corr.fail("pinv violates a Moore-Penrose condition", {"stream": "svd", "ops": [pinv_lines[li]]}, "pinv",
-                      f"AXA-A={c1} XAX-X={c2} sym(AX)={c3} sym(XA)={c4} class={cls}")
+                      f"AXA-A={c1} XAX-X={c2} sym(AX)={c3} sym(XA)={c4} shape={m}x{n} class={cls}")
     for k, v in cert_dev.items():
         corr.maxstat("svd_certificate_max_" + k, v)
+    for want in ("tall", "square", "wide"):
+        if not any(c[3].endswith(want) for c in pinv_meta):
+            corr.inconclusive.append(f"no {want} matrix went through the SVD certificate")
 
     n_mixed = sum(1 for c in cases if c[1][0] == "script" and c[1][2])
     corr.count("scripts_with_assignment_between_different_sizes", n_mixed)
